@@ -148,19 +148,44 @@ def m_c17_single_item_group_action(f, rec):
     except Exception:  # noqa: BLE001
         return False
 
-    def drop(v):
-        # replace every ["g..", x] (a one-item group action) by x
-        if isinstance(v, list):
-            v = [drop(x) for x in v]
-            if len(v) == 2 and isinstance(v[0], str) and re.fullmatch(r"[a-zA-Z]\w*", v[0]) and isinstance(v[1], (list, str)):
-                return v[1]
-        return v
+    def match(sv, ov):
+        """semantic value vs observed value, where the action tuple of a one-item group may be replaced by the bare item"""
+        if sv == ov:
+            return True
+        if isinstance(sv, list) and sv and isinstance(sv[0], str) and re.fullmatch(r"[a-zA-Z]\w*", sv[0]):
+            if len(sv) == 2 and match(sv[1], ov):
+                return True          # (x=item { (tag, x) })  ->  item
+            if len(sv) == 1 and isinstance(ov, str):
+                return True          # (&&'tok' { (tag,) })   ->  the forced token itself
+        if isinstance(sv, list) and isinstance(ov, list) and len(sv) == len(ov):
+            return all(match(a, b) for a, b in zip(sv, ov))
+        return False
 
-    return drop(sem) == obs or drop(sem) == drop(obs)
+    return match(sem, obs)
+
+
+def _top_items(alt: str) -> list:
+    """value-carrying items of one alternative text (before its action), split at depth 0"""
+    alt = alt.split(" {", 1)[0] if " {" in alt else alt
+    toks, depth, cur = [], 0, ""
+    for ch in alt:
+        if ch in "([":
+            depth += 1
+        elif ch in ")]":
+            depth -= 1
+        if ch == " " and depth == 0:
+            if cur:
+                toks.append(cur)
+            cur = ""
+        else:
+            cur += ch
+    if cur:
+        toks.append(cur)
+    return [t for t in toks if t != "~" and not t.startswith("!") and not (t.startswith("&") and not t.startswith("&&"))]
 
 
 def _has_single_item_group(gram: str) -> bool:
-    """some parenthesised group has exactly one alternative with exactly one (named) item at its top level"""
+    """some parenthesised group has exactly one alternative with exactly one item (named or forced) and an action"""
     stack = []
     for i, ch in enumerate(gram):
         if ch == "(" and (i == 0 or gram[i - 1] in " =&!.") and not gram.startswith("('", i):
@@ -168,25 +193,20 @@ def _has_single_item_group(gram: str) -> bool:
         elif ch == ")" and stack and not (i >= 2 and gram[i - 1] == ","):
             j = stack.pop()
             body = gram[j + 1: i]
-            depth, alts, items, brace = 0, 1, 0, 0
-            k = 0
-            while k < len(body):
-                c = body[k]
+            depth, brace, alts = 0, 0, 1
+            for c in body:
                 if c == "{":
                     brace += 1
                 elif c == "}":
                     brace -= 1
                 elif brace == 0:
-                    if c == "(":
+                    if c in "([":
                         depth += 1
-                    elif c == ")":
+                    elif c in ")]":
                         depth -= 1
                     elif depth == 0 and c == "|":
                         alts += 1
-                    elif depth == 0 and c == "v" and re.match(r"v\d+=", body[k:]) and (k == 0 or body[k - 1] == " "):
-                        items += 1
-                k += 1
-            if alts == 1 and items == 1 and "{" in body:
+            if alts == 1 and "{" in body and len(_top_items(body)) == 1:
                 return True
     # a rule whose only alternative is one group item (Rule.flatten drops the rule's own action)
     for m in re.finditer(r"^r\d+(?: \(memo\))?:\n((?:    \| .*\n?)+)", gram, re.M):
